@@ -65,7 +65,8 @@ def main():
             print("diff does not apply to", target, out_a)
             return 2
         for cid in [pid] + extra:
-            rc_c, out_c = sh(f"./check {cid} --tier quick", cwd="/verif", env={"VERIF_REPO": target, "VERIF_WORK": f"{root}/work/{pid}_{n}", "VERIF_EVID": f"{root}/work/{pid}_{n}/evidence"}, timeout=3000)
+            # SEED_VERIF: a snapshot of /verif (git worktree) to run the checks from, so that /verif can be edited meanwhile
+            rc_c, out_c = sh(f"./check {cid} --tier quick", cwd=os.environ.get("SEED_VERIF", "/verif"), env={"VERIF_REPO": target, "VERIF_WORK": f"{root}/work/{pid}_{n}", "VERIF_EVID": f"{root}/work/{pid}_{n}/evidence"}, timeout=3000)
             lines = [l for l in out_c.splitlines() if l.startswith(("OK", "VIOLATION", "MACHINERY", "  signature"))][:3]
             verdicts[cid] = {"rc": rc_c, "lines": lines}
             print(cid, "rc", rc_c, lines[:2])
